@@ -501,6 +501,8 @@ class Engine:
             v = pg.value(pst, op)
             d = parent.single_def(op["l"]) if not proj(op) else None
             if d and d[2] == "assign" and d[3]["k"] == "ref":
+                if d[3].get("mut"):
+                    continue      # captured `&mut`: the closure (called any number of times) changes it - the value at creation is no fact
                 v = pg.value(pst, d[3]["p"])
             if not v.is_top():
                 entry.iv[("P", "_1.%d" % i)] = v
@@ -1009,8 +1011,10 @@ def run_engine(prog, roots, stop, rule_name, clause, table, floor):
         s.sig = site_sig(eng, s) if s.status in ("no",) else ""
         # closure ordinals are positional (inserting an unrelated closure renumbers the later ones): not part of the key
         base = "%s|%s|%s" % (re.sub(r"\{closure#\d+\}", "{closure}", s.fn.norm), s.kind, s.sig)
-        o = per_fn_ord.setdefault(base, 0)
-        per_fn_ord[base] = o + 1
+        # the ordinal distinguishes equally-shaped operations of one function by source position; two copies of one source
+        # line (a helper inlined at two call sites, kq/inline.py) are the same operation
+        seen_at = per_fn_ord.setdefault(base, {})
+        o = seen_at.setdefault(s.where, len(seen_at))
         s.key = base if o == 0 else "%s#%d" % (base, o)
         counts[(s.kind, s.status)] = counts.get((s.kind, s.status), 0) + 1
     return res, eng, sites, counts
@@ -1200,6 +1204,18 @@ def check_shape(eng, s, tag):
     return False, "unknown shape requirement " + tag
 
 
+def _key_variants(key):
+    """a reviewed invariant is about the operation and its operands, not about whether the statement sits in the body
+    of the function or in a closure of it: code that moves between the two (iterator chain <-> loop) keeps its entry"""
+    out = [key]
+    fnpart, sep, rest = key.partition("|")
+    if fnpart.endswith("::{closure}"):
+        out.append(fnpart[:-len("::{closure}")] + sep + rest)
+    else:
+        out.append(fnpart + "::{closure}" + sep + rest)
+    return out
+
+
 def _finish(res, sites, table, what, eng=None):
     import fnmatch
     from rules.panic_tables import REQUIRE
@@ -1207,7 +1223,7 @@ def _finish(res, sites, table, what, eng=None):
     for s in sites:
         if s.status == "no":
             for (pat, reason) in table:
-                if fnmatch.fnmatchcase(s.key, pat):
+                if any(fnmatch.fnmatchcase(k_, pat) for k_ in _key_variants(s.key)):
                     used.add(pat)
                     tag = REQUIRE.get(pat)
                     if tag and eng is not None:
